@@ -950,6 +950,111 @@ fn angle_axis_float<T: Fl>(sub: &mut Sub, cfg: &Config, idx: u64) {
     finish(sub, cfg, idx, T::TY, &desc, h.get(), !exact_identity, fails, || format!("{} -> angle {}, axis {:?}", desc, angle, axis));
 }
 
+/// vek's own angle-axis constructors against Rodrigues' formula, and back through into_angle_axis:
+/// axes with special structure (on a coordinate axis with either sign, in a coordinate plane, any
+/// length) and special angles (0, tiny, quarter and half turns, near a full turn) included, because
+/// that is what a fast path keys on.
+fn rotation_3d_float<T: Fl>(sub: &mut Sub, cfg: &Config, idx: u64) {
+    use std::f64::consts::PI;
+    let mut rng = Rng::for_case(&format!("rotation_3d_float/{}", T::TY), cfg.case_seed(), idx);
+    let mut axis: [f64; 3] = match rng.below(5) {
+        0 => {
+            let mut a = [0.0; 3];
+            a[rng.below(3) as usize] = if rng.bool() { 1.0 } else { -1.0 };
+            a
+        }
+        1 => {
+            let k = rng.below(3) as usize;
+            let mut a = [rng.f64_in(-1.0, 1.0), rng.f64_in(-1.0, 1.0), rng.f64_in(-1.0, 1.0)];
+            a[k] = 0.0;
+            a
+        }
+        _ => [rng.f64_in(-1.0, 1.0), rng.f64_in(-1.0, 1.0), rng.f64_in(-1.0, 1.0)],
+    };
+    let scale = match rng.below(4) {
+        0 => 1.0,
+        1 => 2f64.powi(rng.range_i64(-6, 6) as i32),
+        _ => rng.f64_in(0.05, 20.0),
+    };
+    for a in axis.iter_mut() {
+        *a = T::of(*a * scale).to64();
+    }
+    let l = len64(axis);
+    if !(l > 1e-3) {
+        sub.inconclusive("outside_domain:zero_axis");
+        return;
+    }
+    let angle = T::of(match rng.below(8) {
+        0 => 0.0,
+        1 => rng.f64_in(-1.0, 1.0) * 10f64.powf(rng.f64_in(-9.0, -2.0)),
+        2 => (rng.range_i64(-4, 4) as f64) * PI / 2.0,
+        3 => rng.f64_in(PI - 0.05, PI + 0.05) * if rng.bool() { 1.0 } else { -1.0 },
+        _ => rng.f64_in(-2.0 * PI, 2.0 * PI),
+    })
+    .to64();
+    let n = [axis[0] / l, axis[1] / l, axis[2] / l];
+    let desc = format!("angle = {:?}, axis = {:?} (|axis| = {})", angle, axis, l);
+    let va = Vec3 { x: T::of(axis[0]), y: T::of(axis[1]), z: T::of(axis[2]) };
+    let q = g!(sub, cfg, idx, T::TY, desc, "Quaternion::rotation_3d", Quaternion::<T>::rotation_3d(T::of(angle), va));
+    let qr = [q.x.to64(), q.y.to64(), q.z.to64(), q.w.to64()];
+    let exp = rod64(angle, n);
+    let tol = 64.0 * T::EPS;
+    let mut fails: Fails = Vec::new();
+    let dist = |a: &[[f64; 3]; 3], b: &[[f64; 3]; 3]| -> f64 {
+        let mut e = 0.0f64;
+        for i in 0..3 {
+            for j in 0..3 {
+                let d = (a[i][j] - b[i][j]).abs();
+                e = if d.is_nan() { f64::INFINITY } else { e.max(d) };
+            }
+        }
+        e
+    };
+    // the quaternion the constructor returns is the rotation by `angle` about `axis`
+    let got = quat_mat64(qr);
+    let e1 = dist(&got, &exp);
+    if !(e1 <= tol) {
+        fails.push(("Quaternion::rotation_3d".into(), "not_the_rotation_about_the_given_axis", format!("q = {:?}: its rotation matrix {:?} differs from Rodrigues' {:?} by {:e} > {:e}", qr, got, exp, e1, tol)));
+    }
+    // ... and it rotates a vector accordingly, through vek's own Mul<Vec3>
+    let v = [T::of(rng.f64_in(-2.0, 2.0)).to64(), T::of(rng.f64_in(-2.0, 2.0)).to64(), T::of(rng.f64_in(-2.0, 2.0)).to64()];
+    let rv: Vec3<T> = g!(sub, cfg, idx, T::TY, desc, "Mul<Vec3> for Quaternion", q * Vec3 { x: T::of(v[0]), y: T::of(v[1]), z: T::of(v[2]) });
+    let rv = [rv.x.to64(), rv.y.to64(), rv.z.to64()];
+    for i in 0..3 {
+        let e = exp[i][0] * v[0] + exp[i][1] * v[1] + exp[i][2] * v[2];
+        if !((rv[i] - e).abs() <= 4.0 * tol * (1.0 + len64(v))) {
+            fails.push(("Mul<Vec3> for Quaternion".into(), "rotation_3d_times_vector", format!("q * {:?} = {:?}, Rodrigues gives component {} = {}", v, rv, i, e)));
+            break;
+        }
+    }
+    // the axis-specific constructors agree with the general one on their own axis
+    if axis[1] == 0.0 && axis[2] == 0.0 && axis[0] > 0.0 {
+        let qx = g!(sub, cfg, idx, T::TY, desc, "Quaternion::rotation_x", Quaternion::<T>::rotation_x(T::of(angle)));
+        let e = dist(&quat_mat64([qx.x.to64(), qx.y.to64(), qx.z.to64(), qx.w.to64()]), &exp);
+        if !(e <= tol) {
+            fails.push(("Quaternion::rotation_x".into(), "differs_from_rodrigues", format!("rotation_x({}) = {:?}, error {:e}", angle, qx, e)));
+        }
+    }
+    // back through into_angle_axis (well-conditioned rotations only)
+    let w = qr[3];
+    if w.abs() <= 1.0 - 1e-4 {
+        let (a2, ax2) = g!(sub, cfg, idx, T::TY, desc, "Quaternion::into_angle_axis", q.into_angle_axis());
+        let (a2, ax2) = (a2.to64(), [ax2.x.to64(), ax2.y.to64(), ax2.z.to64()]);
+        let tol2 = 8.0 * (64.0 * T::EPS / (1.0 - w * w)).max(64.0 * T::EPS);
+        let back = rod64(a2, ax2);
+        let e = dist(&back, &exp);
+        if !(e <= 2.0 * tol2 + tol) {
+            fails.push(("Quaternion::into_angle_axis".into(), "round_trip_describes_another_rotation", format!("rotation_3d -> into_angle_axis gives angle {}, axis {:?}: rotation {:?} vs {:?}, error {:e}", a2, ax2, back, exp, e)));
+        }
+    }
+    let mut h = H64::new();
+    h.s(T::TY).f(angle);
+    for x in axis {
+        h.f(x);
+    }
+    finish(sub, cfg, idx, T::TY, &desc, h.get(), angle != 0.0, fails, || format!("{} -> q = {:?}", desc, qr));
+}
+
 // ------------------------------------------------------------------ main
 
 fn main() {
@@ -1031,6 +1136,15 @@ fn main() {
         rep.push(run_cases(&cfg, proto, n, |s, i| {
             angle_axis_float::<f32>(s, &cfg, i);
             angle_axis_float::<f64>(s, &cfg, i);
+        }));
+    }
+    {
+        let proto = Sub::new("rotation_3d_float", "vek's own angle-axis constructor on f32 and f64: axes on a coordinate axis with either sign / in a coordinate plane / generic, any length (powers of two, 0.05..20); angles 0, tiny (1e-9..1e-2), multiples of pi/2, near +-pi, uniform in (-2pi,2pi). Oracle: the textbook matrix of the returned quaternion equals Rodrigues' formula for (angle, axis/|axis|) within 64 eps; q * v (vek's Mul<Vec3>) equals that matrix applied to v; rotation_x agrees on +x; into_angle_axis of the result describes the same rotation (only for |w| <= 1 - 1e-4). non-trivial = angle != 0; distinct by hash of type, angle, axis")
+            .with_floor(n)
+            .require(&["Quaternion::rotation_3d", "Quaternion::into_angle_axis", "Mul<Vec3> for Quaternion"]);
+        rep.push(run_cases(&cfg, proto, n, |s, i| {
+            rotation_3d_float::<f32>(s, &cfg, i);
+            rotation_3d_float::<f64>(s, &cfg, i);
         }));
     }
     std::process::exit(rep.finish());
